@@ -11,6 +11,16 @@ RULES = {
     "C12": "one evaluation = one simulated connection served by yubiagent.ServeAgent (stream of 1..9 frames from the frame grammar, chunking, EOF / read error / write error positions); "
            "non-trivial = every run (at least one frame is sent); distinct = distinct (stack, per-frame kind/class/reply count, error, panic) signatures",
 }
+RULES.update({
+    "C06": "one evaluation = one world (PKI + crafted slot certificate) attested at 1..3 simulated instants; non-trivial = mutation applicable to the key size; distinct = distinct (key bits, chain, window, chain-ok, hash, label, variant, mutation, verdict) tuples",
+    "C07": "one evaluation = one sequential history of 10..42 steps on a fresh shim in a fresh bubble; distinct = distinct sequences of (mode, operation, outcome class, faulted) - i.e. distinct histories by behaviour",
+    "C08": "as C07 with lock/unlock dense histories and upstream refusals",
+    "C09": "one evaluation = one history on one shim; every plan is executed in both upstream modes (2 evaluations) and the listings compared",
+    "C10": "as C07 with hardware certificates, raw relays and upstream faults; construction-failure scenarios through shimagent.New count as one evaluation each",
+    "C13": "one evaluation = one client session of 2..14 operations over the chunked transport; distinct = distinct sequences of (operation, outcome, scripted failure) plus slot mode",
+    "C17": "one evaluation = one Sign call against a simulated endpoint set (plus 2..8 direct back-off evaluations); distinct = distinct tuples of per-endpoint (class, identity, TLS range, client-auth policy, dial behaviour, first reply) and result",
+    "C18": "as C17, generator biased to impostor identities",
+})
 COMPONENTS = {
     "worldg": {"real": ["gensign.Run", "gensign/regular handler", "csr.NewReqParam", "config.NewGensignConfig", "message", "keyid", "agent/ssh AgentKey", "sshutils/key",
                         "x/crypto ssh + ssh/agent client and protocol server", "os file system (key directory, config file)", "crypto/rand entropy"],
@@ -18,12 +28,33 @@ COMPONENTS = {
     "worldw": {"real": ["yubiagent.ServeAgent", "yubiagent client", "yubiagent *server (hook)", "shimagent.Server (full stack)", "x/crypto ssh/agent protocol server and client", "agent/utils PEM parsing"],
                "stub": ["byte-stream transport = scripted reader/writer or chunked in-memory duplex", "served agent = recording stub YubiAgent (stub stack)", "upstream ssh-agent = reference agent model (full stack)", "PIV tool = stub executable written by the harness"]},
 }
+COMPONENTS.update({
+    "worlds": {"real": ["shimagent.Server (via VerifNewFromConn hook; shimagent.New for construction scenarios)", "shimagent filter", "sshutils/cert validation", "keyid.Unmarshal", "x/crypto ssh/agent client"],
+               "stub": ["underlying ssh-agent = reference agent model behind a scripted peer (faults per request index)", "clock = testing/synctest bubble", "transport = in-memory duplex (net.Pipe); unix socket only in construction scenarios"]},
+    "worldl": {"real": ["crypki.Signer (Sign, postUserSSHCertificate, NewSignerWithGensignConf)", "tlsutils.TLSClientConfiguration", "internal/backoff", "grpc client + go-grpc-middleware retry", "crypto/tls + crypto/x509 (both sides)", "grpc.Server (endpoints)", "sshutils/key.GetPublicKeysFromBytes"],
+               "stub": ["network = context dialer onto in-memory listeners (bufconn) with refuse / stall / latency / cut", "CA handlers = scripted SigningServer", "clock = testing/synctest bubble", "client certificate files and CA bundle on a real temp directory"]},
+    "worlda": {"real": ["yubiattest.Attestor.Attest", "yubiattest checkSignature / verifyPKCS1v15", "crypto/x509 chain verification"],
+               "stub": ["PKI generated by the harness", "slot certificate signature = EM^d mod N computed by the harness", "clock = testing/synctest bubble"]},
+})
 ASSUMPTIONS = {
     "worldg": ["ssh.PublicKey.Verify, x/crypto agent wire codec and encoding/json are trusted", "entropy is real: key bytes and challenges differ between a run and its replay; oracles use roles and equality classes only",
                "key directory lives on a real file system: states are set, I/O errors are not injected", "built with go1.26.8 (testing/synctest), /repo declares go 1.23"],
     "worldw": ["x/crypto wire codec trusted for the expected-reply computation of standard requests", "the stub PIV tool is a real child process and is not schedulable"],
 }
+ASSUMPTIONS.update({
+    "worlds": ["the reference agent is the specification of the underlying ssh-agent", "x/crypto agent client wire codec trusted", "Go map iteration order inside the shim is not controlled (affects the order of upstream removals only)"],
+    "worldl": ["gRPC, crypto/tls, crypto/x509 trusted", "crypki.NewSigner runs outside the bubble; client certificates are valid 1999-2100 so that they are valid in real and simulated time"],
+    "worlda": ["crypto/x509 chain verification and math/big trusted", "RSA keys come from a committed pool (1024, 1536, 2048, 3072, 4096 bits)"],
+})
 MUST_PROBE = {
+    "C06": ["accepted_valid_null", "accepted_valid_nonull", "rejected_by_chain_or_clock", "rejected_by_signature"],
+    "C07": ["listing_agrees", "purged_sign_refused", "hardcert_accepted"],
+    "C08": ["locked_list_empty", "locked_op_refused", "unlocked_with_passphrase", "wrong_passphrase_refused"],
+    "C09": ["differential_hidden_some", "hidden_sign_refused"],
+    "C10": ["hardcert_accepted", "hardcert_refused", "sign_with_hardware_cert", "forward_relayed", "op_under_fault", "construct_failure_reported"],
+    "C13": ["op_agrees", "served_failure", "slots_agree", "remote_slot_op", "short_slot_line"],
+    "C17": ["signed", "failover_used", "all_endpoints_fail", "retry_backoff_seen", "backoff_in_bounds"],
+    "C18": ["signed", "impostor_before_genuine", "client_cert_presented"],
     "C01": ["proof_ok", "all_rejected", "regular_success"],
     "C02": ["regular_success", "unconfigured_algo"],
     "C03": ["regular_success", "regeneration", "cert_signs", "failure_with_old_certs"],
